@@ -43,6 +43,7 @@ def run(prog, rep, tier='quick'):
         'stability, |k|<1, autocorrelation matching (theorems about the biased estimate, numerical).')
     rep.rule('wiring', 'CORRELATION(x, maxlags=order, norm=norm) -> LEVINSON(r) -> returned triple; norm biased by default')
     rep.rule('buffers', 'no two element-stored arrays share one allocation')
+    rep.rule('admission', 'no guard on (N, order) raises on the grid N=3..9, order=1..N-1 (aryule and everything it calls)')
     rep.rule('lpc', 'fft length argument of nextpow2 >= 2*len(x)-1; LEVINSON(R, N) with R real')
     rep.rule('scaling', 'a, k: s=0 ; rho: s=2')
     seen = set()
@@ -202,12 +203,25 @@ def run(prog, rep, tier='quick'):
         o = lc[0]['params'].get('order')
         okR = isinstance(R, Num) and (R.cplx is False or R.rv) and deq(R.deg['s'], 2)
         okO = isinstance(o, IntV) and o.a is not None and o.a == C.N_SYM - 1
-        if okR and okO:
+        if okR and okO and R.nonneg:
+            # the lags are a linear readout (real part) of the inverse transform; a sequence that is non-negative by construction
+            # (a modulus) has lost the sign of every negative lag
+            rep.violation('lpc', lpc.qname, 'LEVINSON(R, N)', 'the sequence handed to LEVINSON is non-negative by construction (a modulus / '
+                          'square), so negative autocorrelation lags are flipped: lpc no longer solves the Yule-Walker equations of the data', lw)
+        elif okR and okO:
             rep.proved('lpc', lpc.qname, 'LEVINSON(R, N)', 'real autocorrelation of degree 2, default order len(x)-1', lw)
         else:
             rep.violation('lpc', lpc.qname, 'LEVINSON(R, N)', 'LEVINSON receives %r with order %s' % (R, getattr(o, 'a', o)), lw)
     else:
         rep.undecided('lpc', lpc.qname, 'LEVINSON(R, N)', 'LEVINSON call not found', lw)
+    # the stated domain (orders 1..N-1) is admitted
+    from ..d1rules import admission_of
+    seen_adm = set()
+    grid = [{'N': n_, 'Pa': p_} for n_ in range(3, 10) for p_ in range(1, n_)]
+    for cplx_ in (False, True):
+        admission_of(rep, prog, 'admission', 'yulewalker', 'aryule',
+                     lambda: ([C.data(cplx_), IntV(Aff.sym('Pa'), frozenset(['order']))], {}), grid,
+                     lambda w: 'N = %d samples, order = %d' % (w['N'], w['Pa']), seen_adm)
     rep.floor('wiring contexts', n_w, 9)
     rep.floor('buffer functions', n_b, 5)
     rep.floor('lpc obligations', n_l, 2)
